@@ -1,6 +1,7 @@
 mod alloc_count;
 mod bencode;
 mod common;
+mod coop;
 mod http_sys;
 mod props;
 mod seqmc;
@@ -23,6 +24,7 @@ fn dispatch(args: &common::Args) {
     match args.id.as_str() {
         "C01" => props::c01::main(args),
         "C02" => props::c02::main(args),
+        "C04" => props::c04::main(args),
         "C05" => props::c05::main(args),
         "C07" => props::c07::main(args),
         "C08" => props::c08::main(args),
